@@ -100,6 +100,7 @@ inductive Rpc
   | updateSub (r : Option SubReq) (paths : List String)
   | deleteSub (name : String)
   | listSubs (project : String) (pageSize : Int) (token : Option (Option Id))
+  | listTopicSubs (topic : String) (pageSize : Int) (token : Option (Option Id))
   | modifyPush (name : String) (push : Option PushCfg)
   | pullCheck (name : String) (maxMessages : Int)          -- everything before the delivery transaction
   | ackCheck (name : String) (idsParse : Bool) (isAck : Bool)   -- Acknowledge / ModifyAckDeadline validation
@@ -449,6 +450,21 @@ def hListSubs (db : Db) (now : Time) (project : String) (pageSize : Int) (token 
       db.subs after (effPageSize pageSize Extracted.listSubscriptionsPageDefault)
     (db, { status := .ok, body := ";".intercalate (page.map fun s => showSub db s "" "" true) ++ "|next=" ++ Codec.optStr toString next })
 
+/-- `ListTopicSubscriptions`: the names of the live subscriptions attached to the *live row* of that
+    name (a deleted incarnation's subscriptions are not the new topic's), paged by id; the token is
+    looked at only after the topic was found -/
+def hListTopicSubs (db : Db) (_now : Time) (topic : String) (pageSize : Int) (token : Option (Option Id)) : Db × Resp :=
+  if !isValidTopicName topic then (db, { status := .invalidArgument })
+  else match db.liveTopicByName topic with
+    | none => (db, { status := .notFound })
+    | some t =>
+      match token with
+      | some none => (db, { status := .invalidArgument })
+      | _ =>
+        let after := match token with | some (some i) => some i | _ => none
+        let (page, next) := listPage (·.id) (fun (s : Sub) => s.topicId == t.id && s.live) db.subs after (effPageSize pageSize 100)
+        (db, { status := .ok, body := ";".intercalate (page.map fun s => "name=" ++ Codec.enc s.name) ++ "|next=" ++ Codec.optStr toString next })
+
 def hModifyPush (db : Db) (now : Time) (name : String) (push : Option PushCfg) : Db × Resp :=
   if !isValidSubscriptionName name then (db, { status := .invalidArgument })
   else match validatePush push with
@@ -547,6 +563,7 @@ def handle (db : Db) (now : Time) : Rpc → Db × Resp
   | .updateSub r paths => hUpdateSub db now r paths
   | .deleteSub name => hDeleteSub db now name
   | .listSubs project pageSize token => hListSubs db now project pageSize token
+  | .listTopicSubs topic pageSize token => hListTopicSubs db now topic pageSize token
   | .modifyPush name push => hModifyPush db now name push
   | .pullCheck name maxMessages => hPullCheck db now name maxMessages
   | .ackCheck name idsParse isAck => hAckCheck db now name idsParse isAck
